@@ -702,7 +702,7 @@ func runSweepGuard(c *core.Ctx) {
 	c.Check(keepOK, "removal-needs-unmarked", del.Pos(), "the blob removal at %s is dominated by the ‘not in the keep-set’ edge of a lookup keyed by the loop's blob: %v — otherwise retained content is deleted", c.P.Pos(del.Pos()), keepOK)
 	_ = keepMap
 	// (2) grace test
-	graceOK := false
+	graceOK, graceKnown, graceDirBad := false, false, false
 	for _, b := range fn.Blocks {
 		ifi := an.BlockIf(b)
 		if ifi == nil || !an.BlockReaches(h, b) || !an.BlockReaches(b, h) {
@@ -717,26 +717,146 @@ func runSweepGuard(c *core.Ctx) {
 			continue
 		}
 		// one side can return to the loop header without passing the removal
-		for _, s := range b.Succs {
+		for si, s := range b.Succs {
 			if reachesAvoiding(s, h, del.Block()) && pathCanSkip(s, h, del.Block()) {
 				graceOK = true
+				// that side is the ‘newer than the cut-off’ side
+				isStamp := func(v ssa.Value) bool {
+					root, p := accessPath(an.Strip(v))
+					if al, ok := root.(*ssa.Alloc); ok {
+						if st := an.SingleStore(al); st != nil {
+							root = st
+						}
+					}
+					ex, ok := an.Strip(root).(*ssa.Extract)
+					if !ok || len(p) == 0 || p[len(p)-1] != "mod" {
+						return false
+					}
+					mc, ok := ex.Tuple.(*ssa.Call)
+					return ok && mc.Call.IsInvoke() && mc.Call.Method.Name() == "blobMeta" && len(mc.Call.Args) > 0 && an.Origin(mc.Call.Args[0]) == dkey
+				}
+				_, neg := an.CondBase(ifi.Cond)
+				after := an.IsMethod(call, "time", "Time", "After")
+				pol, known := 0, false
+				if len(call.Call.Args) == 2 {
+					switch {
+					case isStamp(call.Call.Args[0]) && !isStamp(call.Call.Args[1]):
+						pol, known = 1, true
+						if !after {
+							pol = -1
+						}
+					case isStamp(call.Call.Args[1]) && !isStamp(call.Call.Args[0]):
+						pol, known = -1, true
+						if !after {
+							pol = 1
+						}
+					}
+				}
+				if neg {
+					pol = -pol
+				}
+				if si == 1 {
+					pol = -pol
+				}
+				graceKnown = graceKnown || known
+				if known && pol < 0 {
+					graceDirBad = true
+				}
 			}
 		}
 	}
 	c.Check(graceOK, "grace-test", del.Pos(), "a comparison of the blob's modification time with the cut-off decides whether the removal is skipped: %v — otherwise blobs uploaded moments ago (before their manifest arrives) are deleted", graceOK)
+	if graceOK {
+		if !graceKnown {
+			c.Undecided("grace-direction", del.Pos(), "the time comparison that lets the sweep skip a blob does not compare the modification time of that blob (blobMeta of the loop's digest) with another time in a recognised form")
+		} else {
+			c.Check(!graceDirBad, "grace-direction", del.Pos(), "the side of the time comparison that skips the removal is the ‘modified after the cut-off’ side: %v — otherwise the sweep keeps old garbage and deletes what was uploaded moments ago", !graceDirBad)
+		}
+	}
 	// (3) pruning of index entries without a blob
-	pruneOK := false
+	pruneOK, pruneCovers := false, true
 	an.Calls(fn, func(call ssa.CallInstruction) {
 		if an.IsMethod(call, r.TypesPath, "Index", "RmDesc") {
 			for _, g := range an.GuardingEdges(call.Block()) {
 				base, neg := an.CondBase(g.If().Cond)
 				if _, ok := base.(*ssa.Lookup); ok && ((g.Succ == 0) == neg) && !an.BlockReaches(call.Block(), del.Block()) {
 					pruneOK = true
+					// the loop doing this ranges over every entry of the index
+					pruneCovers = false
+					if lh := loopHeader(call.Block()); lh != nil {
+						for _, b := range append([]*ssa.BasicBlock{lh}, lh.Succs...) {
+							for _, in := range b.Instrs {
+								switch x := in.(type) {
+								case *ssa.Next:
+									if rg, ok := x.Iter.(*ssa.Range); ok {
+										if idx, _ := memberCover(c, an.Origin(rg.X)); idx {
+											pruneCovers = true
+										}
+									}
+								case *ssa.IndexAddr:
+									if pth, ok := indexParamPath(x); ok && pathEq(pth, "Manifests", "[]") {
+										pruneCovers = true
+									}
+								}
+							}
+						}
+					}
 				}
 			}
 		}
 	})
+	// (4) retention is closed under reference: an unmarked blob may stay only when it is not an index entry
+	//     (an index entry that stays without having been marked was never expanded, so what it references is unprotected)
+	if keepMap != nil {
+		isMember := func(m ssa.Value) bool {
+			idx, pop := memberCover(c, m)
+			return idx || pop
+		}
+		var bad *ssa.BasicBlock
+		inBody := func(b *ssa.BasicBlock) bool { return b != h && an.BlockReaches(h, b) && an.BlockReaches(b, h) }
+		an.Paths(an.PathSpec[int]{Fn: fn, Init: 0,
+			Instr: func(s int, in ssa.Instruction) []int {
+				if in == ssa.Instruction(del) {
+					return []int{1}
+				}
+				return []int{s}
+			},
+			Edge: func(s int, from *ssa.BasicBlock, succ int) (int, bool) {
+				to := from.Succs[succ]
+				if from == h {
+					return 0, true
+				}
+				if ifi := an.BlockIf(from); ifi != nil {
+					base, neg := an.CondBase(ifi.Cond)
+					if lk, ok := base.(*ssa.Lookup); ok && an.Origin(lk.Index) == dkey {
+						isTrue := (succ == 0) != neg
+						if isTrue && an.Origin(lk.X) == an.Origin(keepMap) {
+							s = 1
+						}
+						if !isTrue && isMember(an.Origin(lk.X)) {
+							s = 1
+						}
+					}
+				}
+				if to == h {
+					if inBody(from) && s == 0 && bad == nil {
+						bad = from
+					}
+					return 0, true
+				}
+				return s, true
+			}})
+		c.SetTags("safety")
+		where := ""
+		if bad != nil {
+			where = c.P.Pos(an.BlockPos(bad))
+		}
+		c.Check(bad == nil, "retention-closed", del.Pos(), "every iteration of the sweep that keeps a blob does so on the ‘marked’ edge or on the ‘not an index entry’ edge (a keep path without either ends at %s): an index entry kept without having been expanded leaves its config, layers and children unprotected", where)
+	}
 	c.SetTags("exact")
+	if pruneOK {
+		c.Check(pruneCovers, "prune-covers-index", del.Pos(), "the loop that removes index entries without a blob ranges over every entry of the index under collection (the index itself, or a set filled unconditionally for each of its entries): %v — otherwise an entry the policy does not retain and whose blob is gone stays in the index forever", pruneCovers)
+	}
 	c.Check(pruneOK, "prune-dangling-entries", del.Pos(), "index entries whose blob is gone are removed from the index: %v", pruneOK)
 }
 
@@ -931,3 +1051,153 @@ func isSpilledNil(ret *ssa.Return) bool {
 }
 
 var _ = sort.Strings
+
+// memberCover classifies a set of digests (a map filled with descriptor digests): idx — it is filled
+// unconditionally for every entry of the index parameter; pop — it is filled unconditionally for every
+// element taken from a slice of descriptors in a loop (the popped element of the mark worklist).
+func memberCover(c *core.Ctx, m ssa.Value) (idx, pop bool) {
+	m = callerArg(c, m)
+	if m == nil || m.Referrers() == nil {
+		return false, false
+	}
+	for _, ref := range *m.Referrers() {
+		mu, ok := ref.(*ssa.MapUpdate)
+		if !ok {
+			continue
+		}
+		_, pth := accessPath(an.Strip(mu.Key))
+		if len(pth) == 0 || pth[len(pth)-1] != "Digest" {
+			return false, false
+		}
+		lh := loopHeader(mu.Block())
+		uncond := lh != nil
+		for _, g := range an.GuardingEdges(mu.Block()) {
+			if lh != nil && g.From != lh && an.BlockReaches(lh, g.From) && an.BlockReaches(g.From, lh) {
+				uncond = false
+			}
+		}
+		if !uncond {
+			continue
+		}
+		if ip, ok := indexParamPath(mu.Key); ok && pathEq(ip, "Manifests", "[]", "Digest") {
+			idx = true
+			continue
+		}
+		root, _ := accessPath(an.Strip(mu.Key))
+		if pathEq(pth, "[]", "Digest") && strings.HasPrefix(root.Type().String(), "[]") && strings.HasSuffix(root.Type().String(), "types.Descriptor") {
+			pop = true
+		}
+	}
+	return idx, pop
+}
+
+func init() {
+	register(&Rule{ID: "SH-GROUP-KEY", Floor: 1,
+		Doc: "where the conversion groups referrer descriptors by subject (a map from digest to a descriptor list, filled by append), the key of each insertion and the appended descriptor come from the same call on the manifest read in that iteration (the subject that manifest names), never from a loop-carried variable",
+		Run: func(c *core.Ctx) {
+			r := requireRoles(c)
+			if r == nil {
+				return
+			}
+			n := 0
+			for _, fn := range sharedStoreFuncs(c) {
+				an.Instrs(fn, func(in ssa.Instruction) {
+					mu, ok := in.(*ssa.MapUpdate)
+					if !ok {
+						return
+					}
+					mt, ok := mu.Map.Type().Underlying().(*types.Map)
+					if !ok || !strings.HasSuffix(mt.Key().String(), "go-digest.Digest") {
+						return
+					}
+					sl, ok := mt.Elem().Underlying().(*types.Slice)
+					if !ok || !strings.HasSuffix(sl.Elem().String(), "types.Descriptor") {
+						return
+					}
+					app, ok := an.Strip(mu.Value).(*ssa.Call)
+					if !ok {
+						return
+					}
+					bi, ok := app.Call.Value.(*ssa.Builtin)
+					if !ok || bi.Name() != "append" || len(app.Call.Args) != 2 {
+						return
+					}
+					elems, ok := variadicElems(app.Call.Args[1])
+					if !ok || len(elems) != 1 {
+						return
+					}
+					srcCall := func(v ssa.Value) *ssa.Call {
+						root, _ := accessPath(an.Strip(v))
+						if al, ok := root.(*ssa.Alloc); ok {
+							if s := an.SingleStore(al); s != nil {
+								root = an.Strip(s)
+							}
+						}
+						root = an.Origin(root)
+						if ex, ok := root.(*ssa.Extract); ok {
+							if call, ok := ex.Tuple.(*ssa.Call); ok {
+								return call
+							}
+						}
+						if call, ok := root.(*ssa.Call); ok {
+							return call
+						}
+						return nil
+					}
+					ec := srcCall(elems[0])
+					if ec == nil {
+						return // the element is not the result of a parse: not the grouping this rule is about
+					}
+					n++
+					kc := srcCall(mu.Key)
+					key := fmt.Sprintf("group:%s#%d", kn(c.P.FuncName(fn)), n)
+					c.Check(kc != nil && kc == ec, key, mu.Pos(), "the descriptor appended at %s and the key it is filed under come from the same call (%s): %v — otherwise referrers of different subjects are filed under one subject and the others lose theirs", c.P.Pos(mu.Pos()), calleeName(ec), kc != nil && kc == ec)
+				})
+			}
+			if n == 0 {
+				c.Unresolved("grouping", "no grouping of parsed referrer descriptors by subject found in the shared store code")
+			}
+		}})
+}
+
+func calleeName(call *ssa.Call) string {
+	if sc := call.Call.StaticCallee(); sc != nil {
+		return sc.Name()
+	}
+	if call.Call.IsInvoke() {
+		return call.Call.Method.Name()
+	}
+	return "call"
+}
+
+// callerArg: a parameter of a function with exactly one (static) call site stands for the argument
+// passed there (followed through further single-caller parameters): a helper split out of a larger
+// function sees the caller's objects.
+func callerArg(c *core.Ctx, v ssa.Value) ssa.Value {
+	for i := 0; i < 4; i++ {
+		p, ok := v.(*ssa.Parameter)
+		if !ok {
+			return v
+		}
+		fn := p.Parent()
+		sites := c.P.Callers(fn)
+		if len(sites) != 1 {
+			return v
+		}
+		cc := sites[0].Common()
+		if cc.IsInvoke() || cc.StaticCallee() != fn {
+			return v
+		}
+		pi := -1
+		for k, q := range fn.Params {
+			if q == p {
+				pi = k
+			}
+		}
+		if pi < 0 || pi >= len(cc.Args) {
+			return v
+		}
+		v = an.Origin(cc.Args[pi])
+	}
+	return v
+}
